@@ -168,7 +168,15 @@ def gen_config(rng, fam, out, i):
                     prog += monitor_ops(rng, s, rng.randint(1, 6))
                     if end == "stop":
                         prog += ["monitor", str(s), str(rng.choice([-1, -1, 1, 2])), str(rng.choice([0, 0, 2, 10]))]
+            held = None
+            if end == "abort" and rng.random() < 0.4:
+                held = rng.randrange(ns)                # a region the client still holds when abort is called
+                monitored.add(held)
+                prog += ["yield", str(rng.choice([0, 2, 10, 50])), "map", str(held)]
             prog += ["yield", str(rng.choice([0, 2, 10, 50])), end]
+            if held is not None:
+                # released completely or in part afterwards; a new look before the next start must find nothing
+                prog += ["unmap", str(held), str(rng.choice([-1, 0, 1])), "map", str(held), "unmap", str(held), "-1"]
             if rng.random() < 0.5:
                 s = rng.randrange(ns)
                 prog += ["map", str(s), "unmap", str(s), "-1"]   # after stop/abort nothing of that acquisition may arrive
@@ -195,7 +203,9 @@ def gen_config(rng, fam, out, i):
         else:
             prog += ["yield", str(k), "abort"]
         if hold:
-            prog += ["unmap", "0", "-1"]
+            # the region held across the stop / abort is released completely or only in part, and the client looks again
+            # before the next start: nothing of the ended acquisition may arrive any more
+            prog += ["unmap", "0", str(rng.choice([-1, -1, 0, 1])), "map", "0", "unmap", "0", "-1"]
         if aborter:
             prog += ["join2"]
         prog += ["state"]
@@ -234,6 +244,8 @@ def gen_config(rng, fam, out, i):
         prog += ["configure", "start", "yield", str(rng.choice([0, 10]))] + (["monitor", str(s), "-1", "0"] if rng.random() < 0.3 else []) + ["stop"]
     elif fam == "avg":
         for a in range(nacq):
+            if a > 0 and rng.random() < 0.35:
+                prog += ["setavg", "0", str(rng.choice([k2 for k2 in (2, 3, 4) if k2 != avg]))]   # another window size
             prog += ["start"]
             if rng.random() < 0.3:
                 prog += monitor_ops(rng, 0, 2) + ["monitor", "0", "-1", "0"]
@@ -257,7 +269,7 @@ def gen_config(rng, fam, out, i):
 
 
 # ops of the client program that name a stream as their first argument, with their argument counts
-STREAM_OPS = {"map": 1, "unmap": 2, "monitor": 3, "trigger": 1, "triggers": 3, "shape": 3, "pixtype": 2, "waitstor": 2, "query": 1}
+STREAM_OPS = {"map": 1, "unmap": 2, "monitor": 3, "trigger": 1, "triggers": 3, "shape": 3, "pixtype": 2, "setavg": 2, "waitstor": 2, "query": 1}
 OTHER_OPS = {"yield": 1, "cfg": 4}
 
 
